@@ -29,6 +29,17 @@ package main
 // Charged sizes, freeBytes and overheadBytes are read from the handles and the
 // reporter by read-only reflection.
 //
+// Fault stream: the loopback sink is closed and re-opened on the SAME port in
+// the middle of a history (ops -2 close, -3 re-open, -4 wait until the
+// reporter's consumer is idle).  A datagram sent to the closed port is lost and
+// answered with ICMP port unreachable, the following send fails with
+// ECONNREFUSED, later sends reach the re-opened sink.  Metrics of batches sent
+// while the sink was away may be lost (never an alarm); what IS received must
+// still obey every predicate: each datagram <= MaxPacketSizeBytes, charged
+// <= freeBytes, no datagram spans a Flush, and the received metrics are a
+// subsequence of the reported ones (every report of a fault case carries a
+// unique value, so a metric delivered twice or out of order has no place in it).
+//
 // Witness stream: the histories on which the pinned tree (allowance 19, bucket
 // tags charged by string length) overflows — finding F12.
 
@@ -42,6 +53,7 @@ import (
 	"reflect"
 	"sort"
 	"strings"
+	"sync"
 	"time"
 
 	tally "github.com/uber-go/tally/v4"
@@ -58,7 +70,7 @@ type c12Alloc struct {
 	Buckets []int64 `json:"buckets,omitempty"` // float64 bits (kind 4) or nanoseconds (kind 5), increasing
 }
 type c12Op struct {
-	H int   `json:"h"`           // handle index; -1 = Flush()
+	H int   `json:"h"`           // handle index; -1 = Flush(); fault stream: -2 close the sink, -3 re-open it on the same port, -4 wait until the consumer is idle
 	B int   `json:"b,omitempty"` // bucket pair index (histograms)
 	V int64 `json:"v,omitempty"` // value (float64 bits for a gauge)
 }
@@ -115,6 +127,7 @@ type c12Internal struct {
 
 type c12Rep struct {
 	r        m3.Reporter
+	rv       reflect.Value
 	free     int32
 	ovh      int32
 	handles  []c12Handle
@@ -194,8 +207,8 @@ func c12Open(c *c12Case, addr string, maxpkt int32) (rep *c12Rep, err error) {
 	if err != nil {
 		return nil, err
 	}
-	rep = &c12Rep{r: r}
 	rv := reflect.ValueOf(r).Elem()
+	rep = &c12Rep{r: r, rv: rv}
 	rep.free = int32(rv.FieldByName("freeBytes").Int())
 	rep.ovh = int32(rv.FieldByName("overheadBytes").Int())
 	// the reporter's clock is set by a goroutine started at the end of NewReporter; reports made
@@ -261,6 +274,76 @@ func c12Open(c *c12Case, addr string, maxpkt int32) (rep *c12Rep, err error) {
 	return rep, nil
 }
 
+// ---------------------------------------------------------------- loopback sink
+
+// c12Sink is a UDP listener on a loopback port that can be closed and re-opened on the same
+// port; datagrams are taken off the socket as they arrive (the socket buffer may be small).
+type c12Sink struct {
+	addr *net.UDPAddr
+	conn *net.UDPConn
+	ch   chan []byte
+	wg   sync.WaitGroup
+}
+
+func c12Listen() (*c12Sink, error) {
+	s := &c12Sink{addr: &net.UDPAddr{IP: net.IPv4(127, 0, 0, 1)}, ch: make(chan []byte, 1<<16)}
+	if err := s.open(); err != nil {
+		return nil, err
+	}
+	s.addr = s.conn.LocalAddr().(*net.UDPAddr)
+	return s, nil
+}
+func (s *c12Sink) open() error {
+	conn, err := net.ListenUDP("udp", s.addr)
+	if err != nil {
+		return err
+	}
+	conn.SetReadBuffer(32 << 20)
+	s.conn = conn
+	s.wg.Add(1)
+	go func() {
+		defer s.wg.Done()
+		buf := make([]byte, 1<<17)
+		for {
+			n, _, err := conn.ReadFrom(buf)
+			if err != nil {
+				return
+			}
+			s.ch <- append([]byte{}, buf[:n]...)
+		}
+	}()
+	return nil
+}
+func (s *c12Sink) close() {
+	if s.conn != nil {
+		s.conn.Close()
+		s.wg.Wait()
+		s.conn = nil
+	}
+}
+func (s *c12Sink) reopen() error {
+	if s.conn != nil {
+		return nil
+	}
+	var err error
+	for k := 0; k < 20; k++ {
+		if err = s.open(); err == nil {
+			return nil
+		}
+		time.Sleep(2 * time.Millisecond)
+	}
+	return err
+}
+
+// c12Idle waits until the reporter's queue is empty and its consumer has had time to emit
+func c12Idle(rep *c12Rep) {
+	ch := rep.rv.FieldByName("metCh")
+	for k := 0; k < 3000 && ch.Len() > 0; k++ {
+		time.Sleep(100 * time.Microsecond)
+	}
+	time.Sleep(4 * time.Millisecond)
+}
+
 // ---------------------------------------------------------------- one run
 
 type c12Item struct {
@@ -283,6 +366,11 @@ type c12Result struct {
 	Flushes  int        `json:"flushes"`
 	Dgrams   []c12Dgram `json:"datagrams"`
 	Sizes    []c12Entry `json:"table"`
+	Fault    bool       `json:"fault_stream,omitempty"`
+	Reopen   string     `json:"reopen_failed,omitempty"`
+	WriteErr int64      `json:"write_errors_reported_by_the_reporter,omitempty"`
+	Missing  int        `json:"metrics_not_delivered,omitempty"`
+	Empty    int        `json:"zero_byte_datagrams,omitempty"`
 	Pred     string     `json:"-"`
 	Fail     string     `json:"-"`
 	Loss     bool       `json:"-"`
@@ -374,28 +462,19 @@ func c12Run(c *c12Case, restricted, final bool) (res c12Result) {
 			res.Pred, res.Fail = pred, fmt.Sprintf(f, a...)
 		}
 	}
-	pc, err := net.ListenPacket("udp", "127.0.0.1:0")
+	sink, err := c12Listen()
 	if err != nil {
 		res.Rejected = "harness: " + err.Error()
 		res.Loss = true
 		return
 	}
-	defer pc.Close()
-	pc.(*net.UDPConn).SetReadBuffer(32 << 20)
-	addr := pc.LocalAddr().String()
-	// datagrams are taken off the socket while the reporter runs (the socket buffer may be small)
-	rawCh := make(chan []byte, 1<<16)
-	go func() {
-		buf := make([]byte, 1<<17)
-		for {
-			n, _, err := pc.ReadFrom(buf)
-			if err != nil {
-				close(rawCh)
-				return
-			}
-			rawCh <- append([]byte{}, buf[:n]...)
+	defer sink.close()
+	addr := sink.addr.String()
+	for _, op := range c.Ops {
+		if op.H <= -2 {
+			res.Fault = true
 		}
-	}()
+	}
 
 	// phase 1: a probe reporter with the largest limit, to read overheadBytes and the charges
 	maxpkt := c.MaxPkt
@@ -472,6 +551,19 @@ func c12Run(c *c12Case, restricted, final bool) (res c12Result) {
 		return len(res.table) - 1
 	}
 	for _, op := range c.Ops {
+		switch op.H {
+		case -2:
+			sink.close()
+			continue
+		case -3:
+			if err := sink.reopen(); err != nil {
+				res.Reopen = err.Error() // the port was taken meanwhile: the rest of the history is lost, no alarm
+			}
+			continue
+		case -4:
+			c12Idle(rep)
+			continue
+		}
 		if op.H < 0 {
 			if restricted || rep.internal.maxSize > rep.free {
 				continue // the reporter's own metrics would not fit on their own: outside the hypotheses
@@ -534,6 +626,9 @@ func c12Run(c *c12Case, restricted, final bool) (res c12Result) {
 read:
 	for {
 		wait := 250 * time.Millisecond
+		if res.Fault {
+			wait = 60 * time.Millisecond // how much arrives is not known
+		}
 		if got >= expect {
 			wait = 2 * time.Millisecond // everything has arrived: look once more for anything extra
 		}
@@ -546,12 +641,15 @@ read:
 		timer.Reset(wait)
 		var raw []byte
 		select {
-		case raw = <-rawCh:
-			if raw == nil {
-				break read
-			}
+		case raw = <-sink.ch:
 		case <-timer.C:
 			break read
+		}
+		if len(raw) == 0 && res.Fault {
+			// after a failed send reporter.flush ends the message with Transport.Flush(), which
+			// sends the (emptied) buffer: a datagram of zero bytes.  It carries nothing.
+			res.Empty++
+			continue
 		}
 		seq, b, err := c12Decode(fac, raw)
 		if err != nil {
@@ -566,11 +664,11 @@ read:
 	for _, p := range pkts {
 		res.Dgrams = append(res.Dgrams, c12Dgram{Seq: p.seq, Len: len(p.raw), N: len(p.b.Metrics)})
 	}
-	if got < expect {
+	if got < expect && !res.Fault {
 		res.Loss = true
 	}
 	for i, p := range pkts {
-		if p.seq != int32(i+1) {
+		if p.seq != int32(i+1) && !res.Fault {
 			res.Loss = true
 		}
 	}
@@ -592,6 +690,93 @@ read:
 	}
 	if wantCommon["env"] == "" {
 		wantCommon["env"] = string(c.Env)
+	}
+	if res.Fault {
+		// what was received must be a subsequence of what was reported (every report of a fault
+		// case has a unique value; the reporter's own metrics are matched by name), and every
+		// datagram on its own must obey the size rules and lie between two flush markers
+		pos, seg := 0, 0
+		for di, p := range pkts {
+			if len(p.raw) > int(maxpkt) {
+				fail("datagram_le_max", "datagram with sequence id %d (number %d of %d received) has %d bytes, MaxPacketSizeBytes is %d (%d metrics; freeBytes %d, overheadBytes %d); the sink had been closed and re-opened",
+					p.seq, di+1, len(pkts), len(p.raw), maxpkt, len(p.b.Metrics), rep.free, rep.ovh)
+			}
+			if len(p.b.Metrics) == 0 {
+				fail("no_drop_no_dup", "datagram with sequence id %d carries no metric", p.seq)
+			}
+			dseg := -1
+			var sumLen, sumCharge int64
+			for mi := range p.b.Metrics {
+				m := &p.b.Metrics[mi]
+				kind, v := c12Value(m)
+				q, sg, found := pos, seg, false
+				for ; q < len(res.stream); q++ {
+					it := &res.stream[q]
+					if it.T == -1 {
+						sg++
+						continue
+					}
+					if it.internal > 0 {
+						found = m.Name == rep.internal.names[it.internal-1]
+					} else if e := &res.table[it.T]; m.Name == e.Name && kind == e.Kind && v == it.V {
+						found = c12StrsEq(c12DecodedTags(m), c12SortPairs(c12WireTags(e, rep.idname, rep.bname)))
+					}
+					if found {
+						break
+					}
+				}
+				if !found {
+					fail("no_drop_no_dup", "datagram with sequence id %d metric %d (%s) is not among the reports made after the metric delivered before it: delivered twice or out of order (sink closed and re-opened during the run)",
+						p.seq, mi+1, c16Show(m))
+					return
+				}
+				it := &res.stream[q]
+				if it.internal == 1 {
+					bi := -1
+					for _, t := range m.Tags {
+						if t.Name == rep.idname {
+							for k, b := range rep.internal.buckets {
+								if b.id == t.Value {
+									bi = k
+								}
+							}
+						}
+					}
+					if bi < 0 {
+						fail("no_drop_no_dup", "datagram with sequence id %d metric %d: %s carries no known bucket id", p.seq, mi+1, c16Show(m))
+						return
+					}
+					it.T = entry(-1, bi)
+				} else if it.internal > 1 {
+					it.T = entry(-1, -(it.internal - 1))
+					if it.internal == 4 {
+						res.WriteErr += v
+					}
+				}
+				e := &res.table[it.T]
+				if dseg >= 0 && sg != dseg {
+					fail("split_only_when_full", "datagram with sequence id %d spans a Flush(): metric %d of it was reported after a flush that followed its first metric", p.seq, mi+1)
+				}
+				dseg = sg
+				l := measure(m)
+				if l > e.Size {
+					fail("charged_ge_actual", "datagram with sequence id %d metric %d (%s) occupies %d bytes, its handle was charged %d", p.seq, mi+1, c16Show(m), l, e.Size)
+				}
+				sumLen += int64(l)
+				sumCharge += int64(e.Size)
+				pos, seg = q+1, sg
+			}
+			if int64(len(p.raw))-sumLen > int64(rep.ovh) {
+				fail("envelope_le_allowance", "datagram with sequence id %d: %d bytes around %d bytes of metrics, overheadBytes is %d", p.seq, int64(len(p.raw))-sumLen, sumLen, rep.ovh)
+			}
+			if sumCharge > int64(rep.free) {
+				fail("split_only_when_full", "datagram with sequence id %d: its %d metrics were charged %d bytes, freeBytes is %d (sink closed and re-opened during the run)",
+					p.seq, len(p.b.Metrics), sumCharge, rep.free)
+			}
+		}
+		res.Missing = expect - got
+		res.Sizes = res.table
+		return
 	}
 	pos := 0 // position in res.stream
 	for di, p := range pkts {
@@ -968,6 +1153,101 @@ func c12Gen(r *Rng, i int, thorough, restricted bool) c12Case {
 	return c
 }
 
+// ---------------------------------------------------------------- fault stream
+
+// c12GenFault: rounds of reports (every value unique), most of them ended by Flush(), the sink
+// closed for one to three rounds and re-opened; the limit is small enough for a round to fill
+// one or several packets.
+func c12GenFault(r *Rng, i int) c12Case {
+	c := c12Case{Proto: i % 2, Service: c12Str(r, 1+r.Intn(8)), Env: c12Str(r, 1+r.Intn(6))}
+	if r.Chance(30) {
+		c.Common = c12TagMap(r, 2, true)
+	}
+	na := 2 + r.Intn(4)
+	for k := 0; k < na; k++ {
+		a := c12Alloc{Kind: 1 + r.Intn(5), Name: c12Str(r, 4+r.Intn(40)), Tags: c12TagMap(r, 3, true)}
+		if k == 0 {
+			a.Kind = 1
+		}
+		if a.Kind == 4 {
+			a.Buckets = []int64{fbits(0), fbits(1), fbits(10)}
+		} else if a.Kind == 5 {
+			a.Buckets = []int64{0, int64(time.Millisecond), int64(time.Second)}
+		}
+		c.Allocs = append(c.Allocs, a)
+	}
+	serial := int64(0)
+	round := func() {
+		k := 3 + r.Intn(12)
+		if r.Chance(25) {
+			k = 20 + r.Intn(40) // several packets
+		}
+		for ; k > 0; k-- {
+			serial++
+			h := r.Intn(na)
+			v := serial
+			switch {
+			case c.Allocs[h].Kind == 2:
+				v = fbits(float64(serial))
+			case r.Chance(50):
+				v = math.MaxInt64 - serial // ten-byte varints: the metrics take every byte charged
+			}
+			c.Ops = append(c.Ops, c12Op{H: h, B: r.Intn(4), V: v})
+		}
+		if r.Chance(85) {
+			c.Ops = append(c.Ops, c12Op{H: -1})
+		}
+		c.Ops = append(c.Ops, c12Op{H: -4})
+	}
+	for k := r.Intn(3); k > 0; k-- {
+		round()
+	}
+	for cycles := 1 + r.Intn(2); cycles > 0; cycles-- {
+		c.Ops = append(c.Ops, c12Op{H: -2})
+		closed := 1 + r.Intn(3)
+		early := r.Chance(40) // re-open before the round whose send reports the refusal
+		for k := 0; k < closed; k++ {
+			if early && k == closed-1 && closed > 1 {
+				c.Ops = append(c.Ops, c12Op{H: -3})
+			}
+			round()
+		}
+		c.Ops = append(c.Ops, c12Op{H: -3})
+		for k := 2 + r.Intn(3); k > 0; k-- {
+			round()
+		}
+	}
+	c.MaxPkt = []int32{1440, 1440, 512, 800, 2000, 4096}[r.Intn(6)]
+	if r.Chance(25) {
+		c.MaxPkt, c.FitJ, c.FitDelta = 0, 2+r.Intn(8), r.Intn(2)
+	}
+	return c
+}
+
+// the collector is away for a moment: one round into the closed port (lost), the sink back, three
+// more rounds (the first of them reports the refusal); 12 counters per round, one packet each
+func c12FaultFixed(proto int) c12Case {
+	c := c12Case{Proto: proto, MaxPkt: 1440, Service: "svc", Env: "test"}
+	for i := 0; i < 12; i++ {
+		c.Allocs = append(c.Allocs, c12Alloc{Kind: 1, Name: B(fmt.Sprintf("requests.handled.count.%02d", i)), Tags: map[B]B{"endpoint": "/v1/items", "status": "200"}})
+	}
+	serial := int64(0)
+	round := func() {
+		for i := 0; i < 12; i++ {
+			serial++
+			c.Ops = append(c.Ops, c12Op{H: i, V: math.MaxInt64 - serial})
+		}
+		c.Ops = append(c.Ops, c12Op{H: -1}, c12Op{H: -4})
+	}
+	c.Ops = append(c.Ops, c12Op{H: -2})
+	round()
+	c.Ops = append(c.Ops, c12Op{H: -3})
+	round()
+	round()
+	round()
+	return c
+}
+
 // ---------------------------------------------------------------- witnesses (finding F12)
 
 func c12Repeat(op c12Op, n int) []c12Op {
@@ -1001,9 +1281,10 @@ var c12Witnesses = []c12Case{
 func init() {
 	props["C12"] = func(ctx *Ctx) {
 		ctx.Header("M3BatchCorr")
-		ctx.Res.Rule = "case = (protocol, common tags, bucket tag names, handles of all kinds with names 1..600 bytes and 0..8 tags, a history of reports with values at the encoding extremes and Flush() calls, MaxPacketSizeBytes absolute or fitted to the charges of the first j reports +-1) run on a real m3 reporter over loopback UDP; non-trivial = at least one datagram; distinct by case hash"
+		ctx.Res.Rule = "case = (protocol, common tags, bucket tag names, handles of all kinds with names 1..600 bytes and 0..8 tags, a history of reports with values at the encoding extremes and Flush() calls, MaxPacketSizeBytes absolute or fitted to the charges of the first j reports +-1) run on a real m3 reporter over loopback UDP; plus a fault stream in which the loopback sink is closed and re-opened on the same port between rounds of reports (failed sends, then normal traffic); non-trivial = at least one datagram; distinct by case hash"
 		retried, lost := 0, 0
 		exact, dgrams, atMax := 0, 0, 0
+		faults, faultsSeen, faultDelivered, faultEmpty := 0, 0, 0, 0
 		one := func(c *c12Case, witness, restricted bool) bool {
 			res := c12Run(c, restricted, false)
 			if res.Loss {
@@ -1028,8 +1309,27 @@ func init() {
 			default:
 				cls += "/6+datagrams"
 			}
-			if res.Flushes > 0 {
+			if res.Flushes > 0 && !res.Fault {
 				cls += "/flush"
+			}
+			if res.Fault {
+				cls = proto + "/fault"
+				switch {
+				case res.Reopen != "":
+					cls += "/port-not-reopened"
+				case res.WriteErr > 0:
+					cls += "/write-error-seen"
+				case res.Missing > 0:
+					cls += "/metrics-lost"
+				default:
+					cls += "/nothing-lost"
+				}
+				faults++
+				if res.WriteErr > 0 {
+					faultsSeen++
+				}
+				faultDelivered += len(res.Dgrams)
+				faultEmpty += res.Empty
 			}
 			key := ""
 			if len(res.Dgrams) > 0 {
@@ -1043,7 +1343,7 @@ func init() {
 				}
 			}
 			term := ""
-			if res.Fail == "" && res.Rejected == "" && !(witness && restricted) {
+			if res.Fail == "" && res.Rejected == "" && !(witness && restricted) && !res.Fault {
 				idn, bn := string(c.IDName), string(c.BName)
 				if idn == "" {
 					idn = m3.DefaultHistogramBucketIDName
@@ -1102,6 +1402,22 @@ func init() {
 			c := c12Gen(rng, i, ctx.Thorough(), restricted)
 			one(&c, false, restricted)
 		}
+		// fault stream (not on a tree with F12: its accounting overflows on its own)
+		if !restricted {
+			for proto := 0; proto < 2; proto++ {
+				c := c12FaultFixed(proto)
+				one(&c, false, false)
+			}
+			frng := ctx.R.Fork()
+			for i, nf := 0, ctx.N(24, 400); i < nf; i++ {
+				c := c12GenFault(frng, i)
+				one(&c, false, false)
+			}
+		}
+		ctx.Res.Extra["fault_cases"] = faults
+		ctx.Res.Extra["fault_cases_with_a_write_error_reported_by_the_reporter"] = faultsSeen
+		ctx.Res.Extra["fault_cases_datagrams_received"] = faultDelivered
+		ctx.Res.Extra["fault_cases_zero_byte_datagrams_after_failed_sends"] = faultEmpty
 		ctx.Res.Extra["datagrams"] = dgrams
 		ctx.Res.Extra["batches_charged_exactly_free_bytes"] = exact
 		ctx.Res.Extra["datagrams_of_exactly_max_packet_size"] = atMax
